@@ -5,7 +5,10 @@ from vlib import core, oracles
 from checks import _e1parse
 
 DELIMS = ['', ' ', '\t', '\n', '\r\n', ',', '(', ')', ';', '=', '+', '-', '/', '<', '|', '*', '>', '&']   # '%' opens a %s placeholder
-OPCHARS = set('+/@#%^&|-')     # characters of the greedy operator rule (known finding KF-C14-1)
+# around regions also the remaining operator characters ('#' and '@' are name prefixes / word characters, so they
+# are no delimiters for the word part)
+REGION_DELIMS = DELIMS + ['#', '@', '^']
+OPCHARS = set('+/@#%^&|-')     # characters of the greedy operator rule (sig 'left=operator-char'; repaired by 8ce678f)
 
 
 def regions():
@@ -108,6 +111,7 @@ def run(tier, seed):
     tasks = core.rotate(tasks, seed)
     lefts = DELIMS
     rights = DELIMS
+    rlefts = rrights = REGION_DELIMS
     if tier == 'thorough':
         lefts3 = ['', ' ', ',', '+', '(', '\n']
     else:
@@ -139,12 +143,14 @@ def run(tier, seed):
                     expect = tname
                     if name in ('block-comment', 'line-comment', 'hash-comment') and bt.startswith('+'):
                         expect = tname + '.Hint'
-                    ctx_l = lefts if len(body) < 3 else lefts3
-                    ctx_r = rights if len(body) < 3 else lefts3
+                    ctx_l = rlefts if len(body) < 3 else lefts3
+                    ctx_r = rrights if len(body) < 3 else lefts3
                     closers = [cl] if cl != '\n' else ['\n', '\r\n', '\r', '']
                     for c in closers:
                         lexeme = op + bt + c
                         for l in ctx_l:
+                            if name == 'line-comment' and l == '-':
+                                continue          # '-' + '--' spells a comment that starts one character earlier
                             for r in (ctx_r if c != '' else ['']):
                                 if c == '\r' and r.startswith('\n'):
                                     continue          # would spell CRLF, a different line end
